@@ -1344,6 +1344,9 @@ class Engine(object):
       while self.docmodel.apply_auto_removes():
         self._bring_all_up_to_date()
 
+      self.out_actions.flush_calc_changes()
+      self.out_actions.check_sanity()
+
     except Exception as e:
       # Save full exception info, so that we can rethrow accurately even if undo also fails.
       exc_info = sys.exc_info()
@@ -1364,8 +1367,6 @@ class Engine(object):
         log.error("Inconsistent schema after revert on failure: %s", traceback.format_exc())
       raise
 
-    self.out_actions.flush_calc_changes()
-    self.out_actions.check_sanity()
     self._user = None
     self._request_responses = {}
     self._cached_request_keys = set()
